@@ -591,6 +591,47 @@ class Function:
     def loc(self, line=None):
         return "src/%s:%s" % (self.file, line if line is not None else self.line)
 
+    def single_defs(self):
+        """name -> initialiser of the locals that are defined exactly once, by their declaration, with a call-free initialiser
+        (temporaries a maintainer introduces for a sub-expression)."""
+        if getattr(self, "_sdefs", None) is None:
+            ndef = {}
+            init = {}
+            for b, i, x, line in self.cfg.all_elems():
+                if not isinstance(x, dict):
+                    continue
+                for l, kind, n in writes(x):
+                    t = lv(l)
+                    if kind == "decl" and n.get("init") is None:
+                        continue    # declared now, defined later
+                    ndef[t] = ndef.get(t, 0) + 1
+                    if kind == "decl":
+                        init[t] = self.cfg.resolve(n["init"])
+                    elif kind == "assign" and n.get("k") == "bin" and n["op"] == "=" and strip_casts(n["l"]).get("k") == "ref":
+                        init[t] = self.cfg.resolve(n["r"])
+                for l in addr_taken(x):
+                    ndef[lv(l)] = ndef.get(lv(l), 0) + 2
+            arrays = {l["n"] for l in self.locals if "[" in (l.get("t") or "")}
+            self._sdefs = {t: e for t, e in init.items() if ndef.get(t) == 1 and t not in arrays and not any(True for _ in calls(e))
+                           and strip_casts(e).get("k") not in ("init", "str")}
+        return self._sdefs
+
+    def expand(self, x, depth=4):
+        """x with references to single-definition temporaries replaced by their initialisers (copy propagation for matching)."""
+        sd = self.single_defs()
+
+        def rec(n, d):
+            if isinstance(n, dict):
+                if n.get("k") == "ref" and n.get("dk") == "local" and n.get("n") in sd and d > 0:
+                    return rec(sd[n["n"]], d - 1)
+                if n.get("k") == "elem":
+                    return rec(self.cfg.resolve(n), d)
+                return {k: rec(v, d) for k, v in n.items()}
+            if isinstance(n, list):
+                return [rec(v, d) for v in n]
+            return n
+        return rec(x, depth)
+
     def __repr__(self):
         return "<fn %s %s:%d>" % (self.name, self.file, self.line)
 
@@ -644,6 +685,12 @@ class Program:
                     self.macros[m["name"]].append(m)
             for t in d["typedefs"]:
                 self.typedefs.setdefault(t["name"], t)
+        # helpers the rule set has never seen are analysed inside their callers (sa/inline.py)
+        self.inlined_helpers = []
+        from .inline import known_functions, inline_unknown
+        kn = known_functions()
+        if kn is not None and not os.environ.get("ECHSE_NO_INLINE"):
+            inline_unknown(self, kn)
 
     @classmethod
     def load(cls, paths):
